@@ -81,6 +81,7 @@ type eagrCfg struct {
 	ordered      bool         // delivery order (sequence numbers) is part of the canonical state (lock-step explorer)
 	trackValues  bool         // keep the set of proposal values seen on the network (adversary alphabet)
 	trackVotes   bool         // C02(i): remember every vote released by each account (ghost state, part of the key)
+	restoreKeepsAhead   bool  // Service.mainLoop keeps a restored state whose round is ahead of the ledger (probed on the real code)
 	restoreInitsPersist bool  // Service.mainLoop initialises persistRouter/Status/Actions on its restore path (probed on the real code)
 }
 
@@ -120,6 +121,11 @@ type eagrNode struct {
 	// restored attest action persists (Service.persistRouter/Status/Actions are not initialised on
 	// the restore path) and therefore started a fresh player for a round it had already voted in.
 	lostState bool
+	lostBlock *eagrEntry // block the ledger lost in a crash (re-delivered by the catch-up event)
+
+	// C07: the (restored, reference) image pair as it was after the previous event of this node; the
+	// next event is applied to copies of both as well (behaviour compared two events after the restore)
+	prevPair *eagrPair
 
 	relClock bool  // virtual-time mode: the key uses phase instead of zero
 	phase    int64 // now - zero at the time the key was computed (virtual-time mode)
@@ -138,10 +144,14 @@ const (
 	eagrDevByz
 	eagrDevSkew
 	eagrDevFast
+	eagrDevSlow // every in-flight copy of one proposal payload is held back past the next 1 or 2 timeouts
+	eagrDevCut  // votes of one (period, step) reach only one node / do not cross the cut {node}|rest
+	eagrDevCrashLose // crash-restart in which the node's ledger lost its last block (re-delivered later)
+	eagrDevOff  // one node is cut off from the network (both directions) for the next d delivery sub-phases
 	eagrNDev
 )
 
-var eagrDevNames = [eagrNDev]string{"drop", "hold-past-timeout", "reorder", "dup", "crash", "byz", "skew", "fast"}
+var eagrDevNames = [eagrNDev]string{"drop", "hold-past-timeout", "reorder", "dup", "crash", "byz", "skew", "fast", "slow-payload", "vote-cut", "crash-with-ledger-rollback", "node-offline"}
 
 type eagrDevs [eagrNDev]int8
 
@@ -166,6 +176,28 @@ type eagrFlight struct {
 	src    int
 	seq    int
 	parked bool // lock-step explorer: held back until after the next tick
+	ticks  int8 // parked: number of ticks it still has to sit out (0/1: released at the next tick)
+}
+
+// eagrCut is a selective-delivery deviation: votes of (period, step) of the explored round either
+// reach only node `node` (only) or do not cross the cut {node} | rest in either direction (!only).
+type eagrCut struct {
+	active bool
+	only   bool
+	node   int
+	period period
+	step   step
+}
+
+// blocks reports whether the cut loses message m sent by src on its way to dst.
+func (c eagrCut) blocks(m *eagrMsg, src, dst int) bool {
+	if !c.active || m.tag != protocol.AgreementVoteTag || m.vote.R.Period != c.period || m.vote.R.Step != c.step {
+		return false
+	}
+	if c.only {
+		return dst != c.node
+	}
+	return (src == c.node) != (dst == c.node)
 }
 
 // eagrSys is the global state.
@@ -178,6 +210,9 @@ type eagrSys struct {
 	sent    map[string]bool // forward suppression: msg id + dst ever enqueued (only if cfg.forward)
 	values  map[proposalValue]bool
 	barrier int // lock-step explorer: flight entries with seq <= barrier are eligible in this sub-phase
+	cut           eagrCut
+	offNode       int // node-offline deviation: node (valid while offLeft > 0)
+	offLeft       int // delivery sub-phases the node still stays cut off
 	syncPeriod    int // C05: highest period of any node when the last deviation was taken (ghost)
 	lastDevPeriod int
 	devs    eagrDevs // lock-step explorer: deviations used so far, by kind
@@ -273,7 +308,7 @@ func (n *eagrNode) startFresh(s *eagrSys, out *eagrOut) {
 // clone returns an independent copy of the node (encode-independent deep copy of the state machine).
 func (n *eagrNode) clone() *eagrNode {
 	c := &eagrNode{id: n.id, led: n.led.clone(), disk: n.disk, zero: n.zero, passive: n.passive,
-		persistFresh: n.persistFresh, persistA: n.persistA, crashes: n.crashes, lostState: n.lostState}
+		persistFresh: n.persistFresh, persistA: n.persistA, crashes: n.crashes, lostState: n.lostState, prevPair: n.prevPair, lostBlock: n.lostBlock}
 	c.p, c.rr = eagrCopyState(&n.p, &n.rr)
 	c.loop = append([]eagrLoopItem(nil), n.loop...)
 	c.ver = append([]cryptoAction(nil), n.ver...)
@@ -292,7 +327,7 @@ func (n *eagrNode) clone() *eagrNode {
 
 // clone copies the system; nodes are shared (copy-on-write: call own(j) before mutating node j).
 func (s *eagrSys) clone() *eagrSys {
-	c := &eagrSys{cfg: s.cfg, now: s.now, seq: s.seq, barrier: s.barrier, devs: s.devs, subStart: s.subStart, syncPeriod: s.syncPeriod, lastDevPeriod: s.lastDevPeriod}
+	c := &eagrSys{cfg: s.cfg, now: s.now, seq: s.seq, barrier: s.barrier, devs: s.devs, subStart: s.subStart, syncPeriod: s.syncPeriod, lastDevPeriod: s.lastDevPeriod, cut: s.cut, offNode: s.offNode, offLeft: s.offLeft}
 	c.nodes = append([]*eagrNode(nil), s.nodes...)
 	c.flight = append([]eagrFlight(nil), s.flight...)
 	if s.sent != nil {
@@ -389,6 +424,12 @@ func (n *eagrNode) submit(s *eagrSys, e externalEvent, out *eagrOut) {
 	s.stats.submits++
 	var shadow *eagrShadow
 	if s.cfg.diff != nil {
+		if n.prevPair != nil {
+			if d := s.cfg.diff.second(s, n, e); d != "" {
+				out.diffs = append(out.diffs, d)
+			}
+			n.prevPair = nil
+		}
 		shadow = s.cfg.diff.prepare(s, n, e)
 	}
 	acts, pm := n.rawSubmit(s, e)
@@ -410,6 +451,8 @@ func (n *eagrNode) submit(s *eagrSys, e externalEvent, out *eagrOut) {
 	if shadow != nil {
 		if d := s.cfg.diff.compare(s, n, e, acts, shadow); d != "" {
 			out.diffs = append(out.diffs, d)
+		} else if shadow.ref != nil && shadow.pm == "" {
+			n.prevPair = &eagrPair{rp: shadow.p, rrr: shadow.rr, fp: shadow.ref.p, frr: shadow.ref.rr, ev: eagrEvStr(e)}
 		}
 	}
 	n.do(s, acts, out)
@@ -726,6 +769,9 @@ func (m *eagrMsg) round() basics.Round {
 }
 
 func (s *eagrSys) enqueue(src int, m *eagrMsg, dst int) {
+	if s.offLeft > 0 && src == s.offNode {
+		return // the sender is cut off from the network
+	}
 	if m.round() > s.cfg.maxRound {
 		return // traffic of rounds beyond the explored ones
 	}
@@ -784,8 +830,27 @@ func (n *eagrNode) timers() (regular, fast int64) {
 // roundInterruptionEvent demux.next produces when Ledger.Wait fires.
 func (n *eagrNode) catchup(s *eagrSys, e *eagrEntry, out *eagrOut) {
 	n.led.EnsureBlock(e.blk, e.cert)
-	n.submit(s, roundInterruptionEvent{Round: n.led.NextRound()}, out)
+	if n.lostBlock != nil && n.led.NextRound() > n.lostBlock.blk.Round() {
+		n.lostBlock = nil
+	}
+	// demux.next waits on Ledger.Wait(player's round): it fires only once the ledger is past that round
+	if n.led.NextRound() > n.p.Round {
+		n.submit(s, roundInterruptionEvent{Round: n.led.NextRound()}, out)
+	}
 	n.settle(s, out)
+}
+
+// rollbackLedger models a ledger that had not made its last block durable when the node crashed
+// (the agreement crash database and the block database are separate; block writes are asynchronous):
+// the block is gone after the restart and arrives again later through catch-up.
+func (n *eagrNode) rollbackLedger() {
+	last := n.led.next - 1
+	if last < 1 {
+		return
+	}
+	n.lostBlock = n.led.entries[last]
+	delete(n.led.entries, last)
+	n.led.next = last
 }
 
 // restart mirrors the start of Service.mainLoop after a crash.
@@ -794,6 +859,7 @@ func (n *eagrNode) restart(s *eagrSys, out *eagrOut) {
 	n.crashes++
 	n.loop = nil
 	n.ver = nil
+	n.prevPair = nil
 	n.persistFresh = false
 	n.persistA = nil
 	n.hist = map[basics.Round]int64{}
@@ -801,7 +867,11 @@ func (n *eagrNode) restart(s *eagrSys, out *eagrOut) {
 	ok := false
 	if n.disk != nil {
 		clock, rr, p, a, err := decode(n.disk, eagrClock{}, serviceLogger{s.cfg.env.log}, false)
-		if err == nil && p.Round >= n.led.NextRound() {
+		// Service.mainLoop keeps the restored state unless it is stale. Whether a state that is AHEAD of
+		// the ledger (persisted round > Ledger.NextRound(), possible when the ledger lost its last block)
+		// is kept is probed on the real mainLoop (eagrProbeRestorePath), not assumed.
+		keep := err == nil && (p.Round == n.led.NextRound() || (p.Round > n.led.NextRound() && s.cfg.restoreKeepsAhead))
+		if keep {
 			n.rr, n.p, acts = rr, p, a
 			n.zero = clock.(eagrClock).zero
 			ok = true
@@ -950,6 +1020,9 @@ func (n *eagrNode) key0(b []byte) []byte {
 	if n.lostState {
 		fl |= 4
 	}
+	if n.lostBlock != nil {
+		fl |= 8
+	}
 	b = append(b, fl, byte(len(n.loop)), byte(len(n.ver)), byte(n.crashes))
 	for _, it := range n.loop {
 		// pending loopback items (only present when the loopback queue is not atomic)
@@ -1015,7 +1088,7 @@ func (s *eagrSys) key() [16]byte {
 		for _, f := range fs {
 			pk := ""
 			if f.parked {
-				pk = "P"
+				pk = "P" + string(rune('0'+f.ticks))
 			}
 			fl = append(fl, string(f.m.id[:])+string(rune('0'+f.dst))+pk)
 			if f.seq <= s.barrier && !f.parked {
@@ -1028,6 +1101,16 @@ func (s *eagrSys) key() [16]byte {
 		}
 		if s.subStart {
 			b = append(b, 1)
+		}
+		if s.offLeft > 0 {
+			b = append(b, 'O', byte(s.offNode), byte(s.offLeft))
+		}
+		if s.cut.active {
+			o := byte(0)
+			if s.cut.only {
+				o = 1
+			}
+			b = append(b, 'C', o, byte(s.cut.node), byte(s.cut.period), byte(s.cut.step))
 		}
 	} else {
 		for _, f := range s.flight {
@@ -1057,9 +1140,10 @@ func (s *eagrSys) key() [16]byte {
 
 var eagrProbeOnce sync.Once
 var eagrRestoreInitsPersist = true // assumption when the probe cannot run
+var eagrRestoreKeepsAhead = true
 var eagrProbeNote = "not run"
 
-func eagrProbeRestorePath(env *eagrEnv) (res bool, note string) {
+func eagrProbeRestorePath(env *eagrEnv) (initsPersist, keepsAhead bool, note string) {
 	eagrProbeOnce.Do(func() {
 		defer func() {
 			if r := recover(); r != nil {
@@ -1108,9 +1192,30 @@ func eagrProbeRestorePath(env *eagrEnv) (res bool, note string) {
 			eagrProbeNote = "probe: the restored actions contain no attest; assuming initialised"
 			return
 		}
+		// second run: the same crash state, but the ledger is one round behind it
+		{
+			behind := n.led.clone()
+			behind.next = n.p.Round - 1
+			svc2 := &Service{}
+			svc2.parameters = parameters(Parameters{Ledger: behind, Clock: eagrClock{}, Accessor: acc})
+			svc2.log = log
+			svc2.tracer = &tracer{log: log}
+			in2 := make(chan externalEvent)
+			out2 := make(chan []action)
+			rdy2 := make(chan externalDemuxSignals)
+			svc2.wg.Add(1)
+			go svc2.mainLoop(in2, out2, rdy2)
+			acts2 := <-out2
+			<-rdy2
+			close(in2)
+			for range out2 {
+			}
+			svc2.wg.Wait()
+			eagrRestoreKeepsAhead = persistent(acts2)
+		}
 		eagrRestoreInitsPersist = svc.persistStatus.Round == n.p.Round && persistent(svc.persistActions)
-		eagrProbeNote = fmt.Sprintf("real Service.mainLoop run on a crash state of round %d with a pending attest: persistStatus.Round=%d, %d persisted action(s) => restore path initialises the persisted fields: %v",
+		eagrProbeNote = fmt.Sprintf("restored state kept when the ledger is one round behind it: %v; ", eagrRestoreKeepsAhead) + fmt.Sprintf("real Service.mainLoop run on a crash state of round %d with a pending attest: persistStatus.Round=%d, %d persisted action(s) => restore path initialises the persisted fields: %v",
 			n.p.Round, svc.persistStatus.Round, len(svc.persistActions), eagrRestoreInitsPersist)
 	})
-	return eagrRestoreInitsPersist, eagrProbeNote
+	return eagrRestoreInitsPersist, eagrRestoreKeepsAhead, eagrProbeNote
 }
